@@ -138,6 +138,12 @@ class C10(ValueCheck):
         if on.resource_blocked(rec, envs[0], 100, FUNCS):
             self.skip("ref:overflow")
             return
+        try:
+            on.value(rec, envs[0], 30, FUNCS, margin, False, 100)
+        except Unjudgeable as u:
+            if u.reason.startswith(("pole", "non_finite", "infinite")):
+                self.skip("e_undefined_at_point")   # e itself has no value there (asec(0), atanh(1), 1/0 ...)
+                return
         x, y, w = ["symbol", "x"], ["symbol", "y"], ["symbol", "w"]
         stmts = [rec, ["diff", R(0), x, True], ["diff", R(0), x, False], ["eq", R(1), R(2)],
                  ["diff", R(1), x, True], ["diff", R(0), w, True], ["diff", ["diff", R(0), x], y], ["diff", ["diff", R(0), y], x],
